@@ -460,7 +460,7 @@ def make_video(frames: list, name="mem.mp4", ramp=False):
     return _mem_video_cls()(filename=name, backend=be, open_backend=False)
 
 
-def make_labels(videos: list, node_names=None, order=None, ramp=False):
+def make_labels(videos: list, node_names=None, order=None, ramp=False, same_name=False):
     """`sio.Labels` with one LabeledFrame per FrameSpec; `videos` = list of lists of FrameSpec
     (frame k of video v is `videos[v][k]`).  `order` = optional list of (video, frame) pairs: which
     labeled frames exist and in which order the reader will meet them (default: all, video-major).
@@ -469,7 +469,9 @@ def make_labels(videos: list, node_names=None, order=None, ramp=False):
     n_nodes = max([len(a.pts) for v in videos for f in v for a in f.animals] + [len(node_names or [])] + [1])
     node_names = node_names or [f"n{i}" for i in range(n_nodes)]
     skel = sio.Skeleton(nodes=[sio.Node(n) for n in node_names])
-    vids = [make_video(frs, name=f"mem{vi}.mp4", ramp=ramp) for vi, frs in enumerate(videos)]
+    # `same_name`: all videos of the labels carry the SAME filename string (as embedded .pkg.slp videos or
+    # equal basenames do); a video's identity is its position in `labels.videos`, not its name
+    vids = [make_video(frs, name=("mem.mp4" if same_name else f"mem{vi}.mp4"), ramp=ramp) for vi, frs in enumerate(videos)]
     if order is None:
         order = [(vi, k) for vi, frs in enumerate(videos) for k in range(len(frs))]
     lfs = []
